@@ -137,13 +137,13 @@ def generate(rng, tier):
     if rng.random() < 0.3:
         table["footer"] = rng.choice(["", "custom footer"])
     if rng.random() < 0.25:
-        table["titles"] = {rng.choice(fields): rng.choice(["Two\nLines", "T", "A longer title"])}
+        table["titles"] = {rng.choice(fields): rng.choice(["Two\nLines", "T", "A longer title", ["Listed", "title"], ["One"]])}
     if rng.random() < 0.2:
         table["limits"] = [rng.randint(0, 3), rng.randint(0, 3)]
     if rng.random() < 0.2:
         plain = [f for f in fields if f != "status"]
         if plain:
-            table["wtypes"] = {rng.choice(plain): [rng.randint(0, 4), rng.randint(4, 9)]}
+            table["wtypes"] = {rng.choice(plain): [rng.randint(0, 4), rng.randint(4, 9)] + (["center"] if rng.random() < 0.4 else [])}
     if rng.random() < 0.25 and recs and not odd:
         table["nt"] = True
     ops = []
@@ -293,8 +293,8 @@ def build_table(w, fmt=None, fmt_obj=None, with_limits=True, ctx=None):
             kw["fields_types"] = {n: w.enums[i] for n, i in spec["types"].items()}
         if spec.get("wtypes"):
             ft = kw.setdefault("fields_types", {})
-            for n, (lo, hi) in spec["wtypes"].items():
-                ft.setdefault(n, w.wtypes.setdefault(n, rw.ro.FieldType(min_width=lo, max_width=hi)))
+            for n, args in spec["wtypes"].items():
+                ft.setdefault(n, w.wtypes.setdefault(n, rw.ro.width_field_type(args)))
         if spec.get("titles"):
             kw["fields_titles"] = dict(spec["titles"])
         kw["fmt"] = fmt
